@@ -90,6 +90,7 @@ class TracedBuffer(Buffer):
     _tr_depth = 0
     _tr_log = None  # list of (op tuple, outcome, state tuple)
     _tr_on = False
+    _tr_id = 0
 
     # -- helpers
     def _sel_tuple(self):
@@ -109,11 +110,11 @@ class TracedBuffer(Buffer):
         us, rs = d["_undo_stack"], d["_redo_stack"]
         return (text, d["_Buffer__cursor_position"], idx, len(wl), self._sel_tuple(),
                 tuple(d.get("multiple_cursor_positions", ())), len(us), len(rs),
-                us[-1] if us else None, rs[-1] if rs else None)
+                us[-1] if us else None, rs[-1] if rs else None, d.get("history_search_text"))
 
     def _log_raw(self, name, args):
         if self._tr_on and self._tr_depth == 0:
-            self._tr_log.append(((name, args), "ok", self._state()))
+            self._tr_log.append((self._tr_id, (name, args), "ok", self._state()))
 
     def _prim(self, name, args, fn):
         if not self._tr_on or self._tr_depth > 0:
@@ -130,7 +131,7 @@ class TracedBuffer(Buffer):
             raise
         finally:
             self._tr_depth -= 1
-            self._tr_log.append(((name, args), outcome, self._state()))
+            self._tr_log.append((self._tr_id, (name, args), outcome, self._state()))
 
     # -- primitives
     @property
@@ -183,28 +184,33 @@ class TracedBuffer(Buffer):
                 object.__setattr__(value, "_owner", self)
             object.__setattr__(self, name, value)
             if self._tr_on and self._tr_depth == 0:
-                self._tr_log.append((("sel", (self._sel_tuple(),)), "ok", self._state()))
+                self._tr_log.append((self._tr_id, ("sel", (self._sel_tuple(),)), "ok", self._state()))
             return
         if name == "multiple_cursor_positions":
             object.__setattr__(self, name, value)
             if self._tr_on and self._tr_depth == 0:
-                self._tr_log.append((("multi", (tuple(value),)), "ok", self._state()))
+                self._tr_log.append((self._tr_id, ("multi", (tuple(value),)), "ok", self._state()))
+            return
+        if name == "history_search_text":
+            object.__setattr__(self, name, value)
+            if self._tr_on and self._tr_depth == 0:
+                self._tr_log.append((self._tr_id, ("hs", (value,)), "ok", self._state()))
             return
         if name in ("_Buffer__cursor_position", "_Buffer__working_index", "_working_lines",
                     "_undo_stack", "_redo_stack"):
             object.__setattr__(self, name, value)
             if self._tr_on and self._tr_depth == 0:
                 # a write to private state outside every primitive: never expected
-                self._tr_log.append((("private", (name,)), "ok", self._state()))
+                self._tr_log.append((self._tr_id, ("private", (name,)), "ok", self._state()))
             return
         object.__setattr__(self, name, value)
 
 
-def trace(buf: Buffer) -> list:
+def trace(buf: Buffer, log: list, bid: int) -> None:
     buf.__class__ = TracedBuffer
-    buf._tr_log = []
-    buf._tr_on = True
-    return buf._tr_log
+    object.__setattr__(buf, "_tr_log", log)
+    object.__setattr__(buf, "_tr_id", bid)
+    object.__setattr__(buf, "_tr_on", True)
 
 
 # ------------------------------------------------------------------ the editor
@@ -213,7 +219,7 @@ WORDS = ["alpha", "alps", "beta", "bet", "gamma delta", "世界", "a.b"]
 
 class Editor:
     def __init__(self, text="", cursor=None, vi=False, multiline=False, history=(), read_only=False,
-                 clip=None, clip_type="CHARACTERS", completer=True, traced=True):
+                 clip=None, clip_type="CHARACTERS", completer=True, traced=True, hs=False):
         cb = InMemoryClipboard()
         if clip is not None:
             cb.set_data(ClipboardData(clip, SelectionType[clip_type]))
@@ -222,7 +228,7 @@ class Editor:
             editing_mode=EditingMode.VI if vi else EditingMode.EMACS,
             multiline=multiline, history=InMemoryHistory(list(history)),
             clipboard=cb, completer=WordCompleter(WORDS) if completer else None,
-            enable_history_search=False)
+            enable_history_search=bool(hs))
         self.app = self.session.app
         self.app.timeoutlen = None
         self.app.ttimeoutlen = None
@@ -237,7 +243,8 @@ class Editor:
         self.app.future = None
         self._init = (text, len(text) if cursor is None else cursor)
         self.traced = traced
-        self.log0 = self.log1 = None
+        self.log = []
+        self.loop = None
 
 
 @contextlib.contextmanager
@@ -250,6 +257,7 @@ def editor(**kw):
             return Editor(**kw)
 
         ed = loop.run_until_complete(mk())
+        ed.loop = loop
         fut = loop.create_future()
         ed.app.future = fut
 
@@ -293,8 +301,8 @@ def editor(**kw):
             if ed.read_only:
                 ed.buffer.read_only = Condition(lambda: True)  # type: ignore
             if ed.traced:
-                ed.log0 = trace(ed.buffer)
-                ed.log1 = trace(ed.search_buffer)
+                trace(ed.buffer, ed.log, 0)
+                trace(ed.search_buffer, ed.log, 1)
 
             def feed(tok):
                 """process one key token; exceptions of the key processor propagate"""
